@@ -137,6 +137,12 @@ FOCI = [
     "entity names: introduce `class Entity(str, enum.Enum)` (members OBJECTS='objects', METADATA='metadata', REFS='refs', CID='cid', PID='pid', TMP='tmp') and use its members instead of the string literals at the call sites of `_get_store_path`, `_delete`, `_exists`, `_open`, `_count` inside `filehashstore.py`; plain strings must keep working for every caller (the members ARE strings), comparisons inside the helpers keep their meaning.",
     "`FileHashStore.__init__` is long: extract `_init_store_paths(self, ...)` (root / objects / metadata / refs / cids / pids / the yaml path and the creation of the directories) and `_init_synchronization(self)` (the whole multiprocessing / threading block that creates locks, conditions and locked lists) as private methods called from `__init__` at exactly the points where the code was, keeping the order of every file-system operation and every attribute name.",
     "`delete_object`: move the body of each of the four recovery branches (the `except OrphanPidRefsFileFound`, `except RefsFileExistsButCidObjMissing`, `except PidNotFoundInCidRefsFile` handlers and the normal path's inner block) into its own private method (`_delete_object_normal(...)`, `_delete_object_orphan_pid_refs(...)`, ...), called from exactly where the code was, with the claims taken and released exactly as now and the same order of renames / removals / metadata deletion.",
+    "pathlib file I/O, each only where exactly equivalent (same mode, same encoding, same bytes, same exceptions): `Path.read_text(encoding='utf8')` for the open/read pair in `_read_small_file_content`, `Path.write_text` for writing the one-line temp reference file in `_write_refs_file`, `Path.open(...)` for `open(path, ...)` elsewhere; do not touch the `r+` rewrite of the cid reference file (flock / seek / truncate sequence) nor any `shutil.move` / `os.remove`.",
+    "`_store_hashstore_refs_files`: move the body of each of the four cases (both reference files exist / only the pid reference exists / only the cid reference exists / neither exists) into its own private method called from exactly where the code was; the claims (`_synchronize_*` / `_release_*`), the try / except / finally structure with the roll-back handler and the order of every check, write, move and verification stay exactly as they are.",
+    "source layout only: reorder the methods of `FileHashStore` into clearly commented sections (public API first, then object helpers, reference helpers, metadata helpers, path helpers, argument checks, synchronisation), add a module docstring and `__all__`, sort the imports; method BODIES must not change at all.",
+    "a small module-level helper class `_RefsFile` (in `filehashstore.py`) that wraps the path of one reference file and offers `contains(ref_id)`, `add(ref_id)`, `remove(ref_id)` and `read_single()`, implemented with exactly the open modes, `fcntl.flock` calls, `seek(0)` / `writelines` / `truncate` order and line comparisons the existing code uses; `_update_refs_file`, `_is_string_in_refs_file` and `_read_small_file_content` keep their names and signatures and delegate to it.",
+    "path builders: the three builders `_build_hashstore_data_object_path`, `_get_hashstore_pid_refs_path`, `_get_hashstore_cid_refs_path` (and the metadata address computed in `store_metadata` / `retrieve_metadata` / `delete_metadata` / `_put_metadata`) share one private helper that shards a hash and joins it below a given entity directory; the resulting paths, their types (str vs Path) and the hashing of pid / pid+format_id stay exactly as they are for every input.",
+    "claims as a higher-order helper: add `_with_claim(self, synchronize, release, identifier, action)` that calls `synchronize(identifier)`, then `action()` inside try / finally with `release(identifier)`, and use it (with bound methods and small local functions or lambdas for `action`) in `_delete_object_only` and in the cid-claimed block of `delete_object`, keeping claim and release points, the order of operations and the exceptions exactly as they are.",
     "`delete_metadata` and `delete_object`: reduce nesting - early returns, loop bodies extracted into private methods (e.g. `_delete_one_metadata_document(pid, path, objects_to_delete)`), keep the per-document claim / re-check / rename / release sequence and the order of `_delete_marked_files` / `delete_metadata` calls exactly.",
 ]
 
